@@ -26,6 +26,8 @@ pub enum Op {
     StopSelf,
     Err,
     Panic,
+    /// join the scenario's process group (side effect a failed start must not leave behind)
+    JoinPg,
 }
 
 #[derive(Clone, Debug, Default)]
@@ -62,6 +64,8 @@ pub enum COp {
     /// Monitor(monitor, target)
     Monitor(usize, usize),
     Unmonitor(usize, usize),
+    /// spawn a second actor under the name of actor i (must fail while i is registered)
+    SpawnClash(usize),
     Pause,
 }
 
@@ -83,6 +87,7 @@ pub struct World {
     pub spawner: Option<ractor::thread_local::ThreadLocalActorSpawner>,
     /// number of spawn calls of thread-local actors in flight (work the gate scheduler cannot see)
     pub spawning: usize,
+    pub run_tag: String,
 }
 type W = Arc<Mutex<World>>;
 
@@ -171,6 +176,11 @@ pub async fn run_ops(this: &Cfg, kind: &str, ops: &[Op], myself: &ActorRef<LMsg>
                     };
                     let r = myself.send_message(LMsg(n));
                     obs("obs.send", x, i64::from(r.is_ok()), vec![kvi("m", n as i64)]);
+                }
+                Op::JoinPg => {
+                    let tag = self_.world.lock().unwrap().run_tag.clone();
+                    ractor::pg::join(format!("g@{tag}"), vec![myself.get_cell()]);
+                    obs("obs.joinpg", x, 0, vec![]);
                 }
                 Op::KillSelf => {
                     myself.kill();
@@ -530,6 +540,26 @@ async fn client(sc: Arc<Scenario>, w: W, ops: Vec<COp>, run_tag: String) {
                     }
                 }
             }
+            COp::SpawnClash(i) => {
+                // only contend for a name whose owner has been created (never pre-empt the real spawn)
+                if w.lock().unwrap().cells[i].is_none() {
+                    continue;
+                }
+                let name = format!("{}@{}", sc.actors[i].name, run_tag);
+                let other = ScriptActor { idx: i, name: "clash".into(), script: Script::default(), world: Arc::new(Mutex::new(World::default())) };
+                // spawn_instant: the name registration (the part under test) is synchronous
+                match ractor::ActorRuntime::spawn_instant(Some(name), other, ()) {
+                    Err(SpawnErr::ActorAlreadyRegistered(_)) => obs("obs.clash", &sc.actors[i].name, 1, vec![]),
+                    Err(_) => obs("obs.clash", &sc.actors[i].name, 2, vec![]),
+                    Ok((aref, _join)) => {
+                        // the name was free: remove the stray actor again before anything else happens
+                        obs("obs.clash", &sc.actors[i].name, 0, vec![]);
+                        aref.kill();
+                        let _ = aref.wait(None).await;
+                        obs("obs.clash_done", &sc.actors[i].name, 0, vec![]);
+                    }
+                }
+            }
             COp::Status(i) => {
                 let cell = w.lock().unwrap().cells[i].clone();
                 if let Some(c) = cell {
@@ -555,7 +585,7 @@ async fn client(sc: Arc<Scenario>, w: W, ops: Vec<COp>, run_tag: String) {
 
 const KEEP: &[&str] = &[
     "obs.cb_enter", "obs.cb_exit", "obs.tick", "obs.yield", "obs.resume", "obs.send", "obs.kill", "obs.stop", "obs.drain",
-    "obs.inject", "obs.abort", "obs.monitor", "obs.unmonitor", "obs.status", "obs.join_begin", "obs.join_ret", "obs.spawn_call", "obs.spawn_ret", "obs.start_ret",
+    "obs.inject", "obs.abort", "obs.monitor", "obs.unmonitor", "obs.joinpg", "obs.clash", "obs.clash_done", "obs.status", "obs.join_begin", "obs.join_ret", "obs.spawn_call", "obs.spawn_ret", "obs.start_ret",
     "port.stop", "port.sup", "port.msg", "port.drain", "sig.handled", "guard.cleanup", "guard.done", "task.dropped",
     "decode.dropped", "obs.end", "task.panicked", "tl.start",
 ];
@@ -574,8 +604,10 @@ pub fn one_run(sc: &Scenario, ex: &mut Explorer, gen: Value) -> (Vec<Value>, Val
         pids: HashMap::new(),
         spawner: None,
         spawning: 0,
+        run_tag: String::new(),
     }));
     let run_tag = format!("r{}", RUN_SEQ.fetch_add(1, std::sync::atomic::Ordering::SeqCst));
+    w.lock().unwrap().run_tag = run_tag.clone();
     let (sc2, w2, tag2) = (sc.clone(), w.clone(), run_tag.clone());
     let fin: Arc<Mutex<Vec<Value>>> = Arc::new(Mutex::new(vec![]));
     let (fin2, w4, sc4) = (fin.clone(), w.clone(), sc.clone());
@@ -593,8 +625,10 @@ pub fn one_run(sc: &Scenario, ex: &mut Explorer, gen: Value) -> (Vec<Value>, Val
             let mut f = fin2.lock().unwrap();
             for (i, c) in g.cells.iter().enumerate() {
                 if let Some(c) = c {
+                    let reg = c.get_name().and_then(ractor::registry::where_is).map(|h| h.get_id() == c.get_id()).unwrap_or(false);
+                    let pg = ractor::pg::get_members(&format!("g@{}", g.run_tag)).iter().any(|m| m.get_id() == c.get_id());
                     f.push(json!({"x": sc4.actors[i].name, "st": c.get_status() as i64,
-                                  "kids": c.get_children().len(), "sup": c.try_get_supervisor().is_some()}));
+                                  "kids": c.get_children().len(), "sup": c.try_get_supervisor().is_some(), "reg": reg, "pg": pg}));
                 }
             }
     };
@@ -695,6 +729,9 @@ pub fn one_run(sc: &Scenario, ex: &mut Explorer, gen: Value) -> (Vec<Value>, Val
 fn rand_ops(rng: &mut Rng, allow_fail: bool, selfops: bool) -> Vec<Op> {
     let mut v = vec![];
     let n = rng.below(3);
+    if rng.chance(1, 5) {
+        v.push(Op::JoinPg);
+    }
     for _ in 0..n {
         let c = rng.below(if selfops { 7 } else { 4 });
         v.push(match c {
@@ -770,7 +807,8 @@ pub fn rand_scenario_flavour(rng: &mut Rng, local: bool) -> Scenario {
     let nd = 1 + rng.below(3);
     for _ in 0..nd {
         let tgt = if three && rng.chance(1, 4) { 2 } else if rng.chance(1, 8) { 0 } else { 1 };
-        c1.push(match rng.below(9) {
+        c1.push(match rng.below(10) {
+            9 => COp::SpawnClash(tgt),
             0 | 1 => COp::Kill(tgt),
             2 | 3 => COp::Stop(tgt),
             4 => COp::Drain(tgt),
@@ -849,6 +887,11 @@ pub fn micro_scenarios() -> Vec<Scenario> {
         Scenario {
             actors: vec![s(vec![Op::Tick]), a(Script { post: vec![Op::Tick], ..Default::default() }, false, false)],
             clients: vec![vec![COp::Spawn(0), COp::Spawn(1), COp::AbortLoop(1), COp::Join(1)], vec![COp::Pause, COp::Status(1)]],
+        },
+        // C08: pre_start joins a group then fails or is killed; the name is contended during and after
+        Scenario {
+            actors: vec![s(vec![Op::Tick]), a(Script { pre: vec![Op::JoinPg, Op::Yield, Op::Err], ..Default::default() }, true, false)],
+            clients: vec![vec![COp::Spawn(0), COp::Spawn(1), COp::SpawnClash(1), COp::Status(1)], vec![COp::Pause, COp::Kill(1), COp::SpawnClash(1)]],
         },
         // supervisor dies while the child starts (link refused / swept)
         Scenario {
